@@ -42,7 +42,7 @@ func init() {
 			{Name: "unknown-network-status-counts-as-unavailable", File: "internal/k8s/nodes/nodes.go",
 				Old: "== corev1.ConditionTrue", New: "!= corev1.ConditionFalse", Expect: "NODE-NETWORK"},
 			c04MutantNamed("sort-removed"), c04MutantNamed("comparator-uses-mynode"), c04MutantNamed("winner-is-last"), c04MutantNamed("hash-cache-by-position"),
-			c04MutantNamed("speaker-scan-stops-at-unavailable-node"),
+			c04MutantNamed("speaker-scan-stops-at-unavailable-node"), c04MutantNamed("speaker-without-cached-node-skipped"),
 			{Name: "key-includes-service-name", File: "speaker/layer2_controller.go",
 				Old: "ipString := toAnnounce[0].String()", New: "ipString := toAnnounce[0].String() + name", Expect: "ELECTION"},
 		},
@@ -59,6 +59,8 @@ func c04MutantNamed(name string) Mutant {
 }
 
 var c04Mutants = []Mutant{
+	{Name: "speaker-without-cached-node-skipped", File: "speaker/layer2_controller.go",
+		Old: "\t\tif k8snodes.IsNetworkUnavailable(nodes[s]) {", New: "\t\tif _, known := nodes[s]; !known && len(nodes) > 0 {\n\t\t\tcontinue\n\t\t}\n\t\tif k8snodes.IsNetworkUnavailable(nodes[s]) {", Expect: "ELIGIBLE"},
 	{Name: "bgp-handler-sorts-the-callers-addresses", File: "speaker/bgp_controller.go",
 		Old: "\tc.svcAds[name] = nil\n\tfor _, lbIP := range lbIPs {", New: "\tc.svcAds[name] = nil\n\tsort.SliceStable(lbIPs, func(i, j int) bool { return lbIPs[i].To4() != nil && lbIPs[j].To4() == nil })\n\tfor _, lbIP := range lbIPs {", Expect: "ADDRESSES-READONLY"},
 	{Name: "lone-speaker-reports-membership-disabled", File: "internal/speakerlist/speakerlist.go",
